@@ -13,7 +13,7 @@ def main():
     rep = core.Report("C20")
     quick = core.tier() == "quick"
     rng = random.Random(core.seed() * 7919 + 20)
-    n = 700 if quick else 8000
+    n = 1500 if quick else 12000
     cases = []
     for i in range(n):
         vs = list(rng.choice([("x",), ("x", "y")]))
@@ -31,11 +31,26 @@ def main():
             phi = bi(rng.choice(["or", "or", "and", "implies"]), *((sh, sib) if rng.random() < 0.5 else (sib, sh)))
             if rng.random() < 0.3:
                 phi = un("alwT", phi, 0, rng.choice([1, 2]))
-        vs_used = vars_of(phi)
         N = rng.choice([1, 2, 3, 3])
+        if rng.random() < 0.35:
+            # chains of temporal operators over one variable: a parent that hands a multi-sample interval to its operand
+            v0 = rng.choice(vs)
+            a0 = pred(rng.choice(["ge", "gt", "le", "lt"]), var(v0), const(thr[v0]))
+            q = a0
+            for _ in range(rng.choice([2, 2, 3])):
+                o_ = rng.choice(["evT", "evT", "alwT", "alwT", "onceT", "histT", "next", "prev", "sprev", "not", "ev", "alw"])
+                q = un(o_, q, *rng.choice(IVS)) if o_ in UN_TIMED else un(o_, q)
+            phi = q if rng.random() < 0.6 else bi("implies", q, pred("ge", var(v0), const(thr[v0] + 5)))
+            N = rng.choice([3, 4, 5])
+        vs_used = vars_of(phi)
         if len(vs_used) * N > 6:
             N = 3
-        w = {v: [thr[v] + rng.choice([-1, 0, 1]) for _ in range(N)] for v in vs_used}
+        # half of the traces stay on one side of the threshold (temporal formulas are then uniformly violated /
+        # satisfied and every operand sample matters), the others wander around it
+        w = {}
+        for v in vs_used:
+            side = rng.choice([None, None, -1, 1])
+            w[v] = [thr[v] + (rng.choice([-1, 0, 1]) if side is None or rng.random() < 0.15 else side) for _ in range(N)]
         o = dt_obj(phi, 1, vs_used, factory="StlDiscreteTimeOfflineSpecification")
         cases.append(case([o], [ev_parse(), ev_evaluate(range(N), w), {"o": 1, "a": "explain"}], skip=["evaluate.viol"]))
     traces = runner.run_cases(cases)
